@@ -280,6 +280,19 @@ func init() {
 		})
 		return
 	}
+	// gb.state: ONE call of GenBankParser on a fresh in-memory state; besides the verdict the
+	// answer shows where the call leaves the state: the bytes not yet consumed (state.Dump():
+	// position, and what the in-place joined DEFINITION body made of the buffer) and whether a
+	// saved position is left (state.Pushed()).  gb.read cannot tell "the record fails here" from
+	// "the record fails after going back to an older saved position": both are ERR.
+	extraOps["gb.state"] = func(a []sexp) (out string) {
+		withRegistry(decRegistry(a[0]), func() {
+			state := pars.FromBytes(append([]byte(nil), decBytes(a[1])...))
+			_, err := pars.Parser(seqio.GenBankParser).Parse(state)
+			out = okErr(err == nil) + " " + encBytes(state.Dump()) + " " + b01(state.Pushed())
+		})
+		return
+	}
 	extraOps["gb.wrw"] = func(a []sexp) (out string) {
 		withRegistry(decRegistry(a[0]), func() {
 			res := readGenBank(decBytes(a[1]))
@@ -360,5 +373,78 @@ func init() {
 			return "ERR"
 		}
 		return fmt.Sprintf("%d %d %d", d.Year, int(d.Month), d.Day)
+	}
+}
+
+// ---------------------------------------------------------------------------
+// "leak, then rewind" shapes (F34).  A failing location inside the feature table leaves saved
+// positions on the pars stack (gts.parseJoin and friends return without Pop: one per nesting
+// level).  A field parser behind it that fails AFTER consuming input, or that pops more than it
+// pushed, then decides where the scan continues: on the spot, or back at one of those positions.
+// The texts are small; model and code are compared on every one of them (gb.read: records and
+// verdict; gb.state: verdict, position, buffer, stack) on every run of C01 and C07.
+
+const leakLocus = "LOCUS       X 0 bp DNA linear UNA 01-JAN-2000\n"
+
+// leakHead: a feature table whose second feature has a location that fails `levels` deep, then
+// `skipped` unknown lines.
+func leakHead(open string, levels, skipped int) string {
+	return leakLocus + "FEATURES\na 1\na " + strings.Repeat(open, levels) + "1^3\n" + strings.Repeat("x\n", skipped)
+}
+
+var leakOpens = []string{"join(", "order(", "complement(join(", "join(1..2,join("}
+
+var leakTails = []string{
+	"SOURCE      x\n//\n",                                  // SOURCE without ORGANISM (66de3a0)
+	"SOURCE      x\n            y\n//\n",                  // ... over two lines
+	"SOURCE      x\n  ORGANISM  y\n            z.\n//\n", // a good SOURCE
+	"SOURCE\n//\n",
+	"DEFINITION  a\n            b\n            c\n//\n", // no period, several lines: joined in place, retried
+	"DEFINITION  a\n            b\nSOURCE      x\n//\n",
+	"DEFINITION  a\n//\n",
+	"DEFINITION  a.\nSOURCE      x\n//\n",
+	"REFERENCE   1  (bases 1 to 4)\n  AUTHORS   x\n  BOGUS     y\n//\n", // unknown sub-field
+	"REFERENCE   1\n  BOGUS     y\nSOURCE      x\n//\n",
+	"REFERENCE   x\n//\n",
+	"DBLINK      abc\n//\n", // no colon
+	"DBLINK      a: b\n            c\n//\n",
+	"DBLINK      a: b\n            c\nSOURCE      x\n//\n",
+	"DBLINK      abc\nSOURCE      x\n//\n",
+	"ACCESSION   A\nSOURCE      x\n//\n",
+	"COMMENT     c\nSOURCE      x\n//\n",
+	"KEYWORDS    .\nSOURCE      x\n//\n",
+	"CONTIG      join(U1:1..4\nSOURCE      x\n//\n",
+	"VERYLONGFIELDNAME x\nSOURCE      x\n//\n",
+	"ORIGIN      \nSOURCE      x\n//\n",
+	"FEATURES\na join(1^3\nSOURCE      x\n//\n",
+	"//\n",
+	"",
+}
+
+func leakTexts() []string {
+	var out []string
+	for _, open := range leakOpens {
+		for _, n := range []int{1, 2, 3, 5} {
+			for _, k := range []int{0, 2} {
+				for _, t := range leakTails {
+					out = append(out, leakHead(open, n, k)+t)
+				}
+			}
+		}
+	}
+	// no leaked frame at all: the same tails behind a clean stack
+	for _, t := range leakTails {
+		out = append(out, leakLocus+t, leakLocus+"FEATURES\na 1\n"+t)
+	}
+	return out
+}
+
+// leakCases sends every text to both sides.
+func leakCases(r *Run) {
+	reg := encRegistry(registry{})
+	for _, t := range leakTexts() {
+		r.op("gb.read " + reg + " " + encStr(t))
+		out := r.op("gb.state " + reg + " " + encStr(t))
+		r.count("leak-then-rewind/" + strings.SplitN(out, " ", 2)[0])
 	}
 }
